@@ -532,7 +532,11 @@ def rule_PI(run: Run) -> RuleResult:
     if ok:
         oth = astu.param_names(ad2)[0]
         aps = analyse_function(Ctx(repo), ps_.module, ad2, cls=ps_)
-        ok = bool(aps) and all(p.status == "ret" and p.ret is not None and p.ret.key() == f"binop:Add(New(Pipeline;rest=Const(None),tail=self),{oth})" for p in aps)
+        def _is_single(t):
+            return isinstance(t, New) and t.cls.name == "Pipeline" and t.attrs.get("tail") is not None and t.attrs["tail"].key() == "self" \
+                and t.attrs.get("rest") is not None and t.attrs["rest"].key() == "Const(None)"
+        ok = bool(aps) and all(p.status == "ret" and isinstance(p.ret, Sym) and p.ret.head == "binop:Add" and len(p.ret.args) == 2
+                               and _is_single(p.ret.args[0]) and p.ret.args[1].key() == oth for p in aps)
     res.add("labrea.pipeline.PipelineStep.__add__:Pipeline(self) + other", ok, f, ad2.lineno if ad2 else 0, "", nec)
     # pipeline_step: first parameter is the input (no default), the rest are option-valued defaults
     psf = repo.func("labrea.pipeline.pipeline_step")
